@@ -129,7 +129,7 @@ func runC03(w *World, r *Report) {
 	rollbackReservation(w, r, "rollback-reservation")
 
 	// 3b. deletion of a tentative vertex is followed by removal of its index entry
-	r.rule("delete-with-index", "every DeleteVertex(v) outside truncate is followed on all paths by removeTrxInVertex(v.Transaction.Hash)", 4)
+	r.rule("delete-with-index", "every DeleteVertex(v) outside truncate is followed on all paths by removeTrxInVertex(v.Transaction.Hash)", 2)
 	for _, fn := range w.RepoFuncs("accountant") {
 		for _, d := range callsTo(fn, nDeleteVertex) {
 			if truncateOwns(w, d) {
@@ -189,6 +189,39 @@ func runC03(w *World, r *Report) {
 				})
 				ok = !reached
 			}
+			if !ok && fn.Parent() == nil && fn.Object() != nil && !fn.Object().Exported() {
+				// a roll-back helper: decide per call site — the site lies behind the reservation of the hash it hands
+				// over, or, with the arguments of that site (constant flags prune the helper's branches), every way to
+				// the removal passes the deletion of the vertex that carries the hash
+				sites := staticCallers(w, fn)
+				okAll := len(sites) > 0
+				for _, cs := range sites {
+					if behindAll(w, cs.(ssa.Instruction), upMap(cs, idMap), reserved, 1) {
+						continue
+					}
+					reached := false
+					dw := newDeepWalk(func(in ssa.Instruction, fr *frame) bool {
+						if fr.top() {
+							return true // left the helper
+						}
+						if dc, isC := in.(ssa.CallInstruction); isC && calleeName(dc) == nDeleteVertex && in.Parent() == fn {
+							_, da := callArgs(dc)
+							if vx, isV := vertexOfHashArg(da[0]); isV && trxHashPathOKUp(w, fn, pathOf(vx), h, 2) {
+								return true
+							}
+						}
+						if in == c.(ssa.Instruction) {
+							reached = true
+						}
+						return reached
+					})
+					dw.run(frameFor(cs.Parent(), []ssa.CallInstruction{cs}), fn.Blocks[0], 0)
+					if reached {
+						okAll = false
+					}
+				}
+				ok = okAll
+			}
 			r.check(ok, "index-removal-paired", shortFn(fn)+"/removeTrxInVertex("+h+")", lineOf(w, c), "the index entry is released as a roll-back or together with its vertex", "removal reachable without a preceding reservation of the same hash or deletion of its vertex")
 		}
 	}
@@ -209,7 +242,8 @@ func runC03(w *World, r *Report) {
 	r.rule("reserve-under-lock", "the reservation in addLeafMemorized and CreateLeaf runs with AccountingBook.mux held exclusively (check-then-insert is atomic w.r.t. other admissions)", 2)
 	for _, spec := range []string{"addLeafMemorized", "CreateLeaf"} {
 		if f := w.fx(r, "accountant", "AccountingBook", spec); f != nil {
-			for _, g := range f.calls(nSaveTrx) {
+			for _, d := range deepCalls(f.fn, byName(nSaveTrx), deepDepth) {
+				g := d.c.(ssa.Instruction)
 				held := li.At(g)
 				r.check(held.Has(abMux, "W"), "reserve-under-lock", spec+"/saveTrxInVertex", lineOf(w, g), "reservation under the exclusive ledger lock", "lockset "+held.String())
 			}
